@@ -48,13 +48,28 @@
 //	                 where Lock follows at once and no hook is called in between (a method made of two
 //	                 critical sections, a check-then-act through another public method).
 //
+// Every workload runs on two kinds of cache, drawn per history (configuration field store): cache.LRU()
+// (store=0) and the harness's own list-based LRU Store handed over through the public Config.WithStore
+// (store=1, liststore.go - the same file is checked sequentially by cachetrace's W lines).  The hooks of
+// that Store run inside every Store method, so the harness's code (a yield; in the staged mode a gate)
+// also runs INSIDE Get (Store.Access) and Has (Store.Check), which call neither the size function nor the
+// callback.  Staged acts of their own (store=1): A is a Get or a Has of a present key, mostly the least
+// recently used one, stopped at the start or the end of Check / Access (also of the Check a Get would make
+// if it looked the key up first), with writers queued on the mutex behind it - a Put of another key that
+// needs that entry's room, a Remove of it, Clear, a replacing Put; in the other acts the gate is, half of
+// the time, at the start or the end of one of the Store calls of A's call (Check, Remove, the n-th Evict,
+// Store).  Small caches are drained after an act (Puts of fresh keys): the victims show the recency order
+// the act has left.  The handoff mode has an act of its own as well: A is a Get of the least recently
+// used key, the first prober in the queue a writer that takes that entry away.
+//
 // Per history:
 //
-//	(a) linearizability (porcupine v1.3.0) against a Go transcription of the C08 reference: recency
+//	(a) linearizability (porcupine v1.3.0) against a Go transcription of the C08 reference LRU: recency
 //	    list, Put/Get are uses, Has is not; the victims of a Put are taken from the observed callback
-//	    log and checked as in the policy-agnostic reference S1 (present entries, evicted only while
-//	    the value does not fit, stop only when it fits) - a victim that is not the least recently
-//	    used entry is counted (known finding F2), not rejected;
+//	    log and must be the least recently used entries, in that order, evicted only while the value
+//	    does not fit and until it fits.  A victim that is not the least recently used entry is accepted
+//	    (and counted: known finding F2) only on cache.LRU() and only once the history is no longer
+//	    *settled* in the sense of theorem C08_lru_settled_partial (see model);
 //	(b) every observed Size() within [0, limit], every Len() within [0, number of keys] (never negative);
 //	(c) quiescence: once all goroutines are done the driver reads Len, Size, Has and Get of every key;
 //	    Len must be the number of keys present and Size the sum of the sizes of the values present;
@@ -140,6 +155,7 @@ type config struct {
 	keys   int
 	limit  int64
 	sizeMd int // 0 unit, m = v mod m (3 in the small workloads; limit+1 in the big ones, so that a value can fill the limit exactly)
+	store  int // 0 = cache.LRU(), 1 = the harness's listStore handed over through Config.WithStore (hooks inside every Store method)
 }
 
 // keyspace is the number of keys a history of this configuration may use (0..keyspace-1).
@@ -150,11 +166,18 @@ func (c config) keyspace() int {
 	if c.mode == 5 {
 		return c.keys + 2 // the arriving key and the helper's key
 	}
+	if c.mode == 3 && c.limit < 8 {
+		return c.keys + 1 + int(c.limit) // and the keys of the drain that follows an act (executeStaged)
+	}
 	return c.keys + 1 // key c.keys is the duel mode's second key
 }
 
 func (c config) String() string {
-	return fmt.Sprintf("mode=%d,seed=%d,run=%d,procs=%d,g=%d,ops=%d,keys=%d,limit=%d,size=%d", c.mode, c.seed, c.run, c.procs, c.g, c.ops, c.keys, c.limit, c.sizeMd)
+	s := fmt.Sprintf("mode=%d,seed=%d,run=%d,procs=%d,g=%d,ops=%d,keys=%d,limit=%d,size=%d", c.mode, c.seed, c.run, c.procs, c.g, c.ops, c.keys, c.limit, c.sizeMd)
+	if c.store != 0 {
+		s += fmt.Sprintf(",store=%d", c.store) // configurations written before round 5 have no such field: cache.LRU()
+	}
+	return s
 }
 
 func parseConfig(s string) (c config, err error) {
@@ -186,6 +209,8 @@ func parseConfig(s string) (c config, err error) {
 			c.limit = n
 		case "size":
 			c.sizeMd = int(n)
+		case "store":
+			c.store = int(n)
 		}
 	}
 	if c.g < 1 || c.g > 64 || c.ops < 1 || c.keys < 1 || c.limit < 1 {
@@ -222,7 +247,8 @@ type world struct {
 	detail []string
 	gate   atomic.Pointer[gate] // staged mode: where goroutine A stops inside its call
 	hand   atomic.Pointer[handoff]
-	mword  *int32 // the state word of the cache's mutex (handoff mode: read only, to see whether it is in starvation mode)
+	mword  *int32               // the state word of the cache's mutex (handoff mode: read only, to see whether it is in starvation mode)
+	ls     *listStore[int, int] // config.store = 1: the Store the cache was given
 }
 
 // handoff mode (mode=5).  A sync.Mutex whose waiter has waited for more than a millisecond and then
@@ -322,9 +348,14 @@ func mutexWord(cc any) *int32 {
 // A gate stops one goroutine (owner) inside a call of the cache: at the first call of the hook kind
 // ('c' = eviction callback, 's' = size function) whose value argument is val.  Values are unique per
 // Put, so this names one entry.  The probers wait for inside, make their calls and set done.
+// With the harness's own Store (config.store = 1) the hook kinds of listStore are gates as well: the start
+// (k a t m e) and the end (K A T M E) of Check, Access, Store, Remove, Evict, val being the KEY of the call
+// (Evict: 0 at the start, the victim's key at the end), after `skip` such calls by the owner have gone by.
+// These are the only gates inside Get and Has, which call neither the size function nor the callback.
 type gate struct {
 	kind    byte
 	val     int
+	skip    atomic.Int32
 	owner   atomic.Int64
 	armed   atomic.Int32
 	inside  chan struct{}
@@ -340,7 +371,7 @@ type prober struct {
 
 func (g *gate) open() { g.once.Do(func() { close(g.inside) }) }
 
-var gateFired, gateProbesInside, gateGaveUp int64 // statistics of the staged mode
+var gateFired, gateProbesInside, gateGaveUp, storeGateFired int64 // statistics of the staged mode
 
 // stateOf returns the scheduler state of goroutine id as the runtime prints it ("running",
 // "runnable", "sync.Mutex.Lock", ...), "" if there is no such goroutine.
@@ -366,10 +397,17 @@ func (w *world) atGate(kind byte, v int) {
 	if g == nil || g.kind != kind || g.val != v || g.owner.Load() != goid() {
 		return
 	}
+	if g.armed.Load() == 1 && g.skip.Load() > 0 {
+		g.skip.Add(-1) // only the owner gets here
+		return
+	}
 	if !g.armed.CompareAndSwap(1, 0) {
 		return
 	}
 	atomic.AddInt64(&gateFired, 1)
+	if kind != 'c' && kind != 's' {
+		atomic.AddInt64(&storeGateFired, 1)
+	}
 	g.open()
 	buf := make([]byte, 1<<16)
 	for _, p := range g.probers {
@@ -414,7 +452,20 @@ func newWorld(c config) *world {
 		}
 		w.hmu.Unlock()
 	}
-	cfg := cache.LRU[int, int]().OnEvict(cb).WithSize(func(v int) int64 { stretch(); w.atGate('s', v); w.atHand('s', v); return c.size(v) })
+	sz := func(v int) int64 { stretch(); w.atGate('s', v); w.atHand('s', v); return c.size(v) }
+	var cfg cache.Config[int, int]
+	switch {
+	case c.store == 0:
+		cfg = cache.LRU[int, int]().OnEvict(cb).WithSize(sz)
+	case c.run%2 == 0:
+		// the harness's own Store (liststore.go) through the public Config.WithStore; its hooks run inside
+		// every Store method, i.e. also inside Get (Access) and Has (Check)
+		w.ls = &listStore[int, int]{hook: func(kind byte, key int) { stretch(); w.atGate(kind, key) }}
+		cfg = cache.Config[int, int]{}.WithStore(w.ls).OnEvict(cb).WithSize(sz)
+	default: // the options in another order, on top of the Config that LRU() returns
+		w.ls = &listStore[int, int]{hook: func(kind byte, key int) { stretch(); w.atGate(kind, key) }}
+		cfg = cache.LRU[int, int]().WithSize(sz).OnEvict(cb).WithStore(w.ls)
+	}
 	w.cc = cache.New(c.limit, cfg)
 	if c.mode == 5 {
 		w.mword = mutexWord(w.cc)
@@ -911,6 +962,11 @@ func executeStaged(c config) (hist []rec, global []kv, reasons, detail []string)
 				kind = 7 // with unit sizes a Put has one victim at most
 			}
 		}
+		if c.store == 1 && r.intn(3) == 0 {
+			// the cache runs on the harness's Store: A is a Get (9) or a Has (10), stopped INSIDE Store.Access /
+			// Store.Check, with writers queued on the mutex behind it
+			kind = 9 + r.intn(2)
+		}
 		// atMultiple picks how many of n entries have gone when A stops: mostly so that the number left is
 		// next to a multiple of 64 (or of 16, 100), at both ends, or anywhere
 		atMultiple := func(n int) int {
@@ -1062,6 +1118,21 @@ func executeStaged(c config) (hist []rec, global []kv, reasons, detail []string)
 			opA = input{kind: 'p', key: ents[j].k, val: val(res)}
 			stopAt = ents[j]
 			probes = []input{{kind: 'g', key: ents[j].k}, {kind: 'h', key: ents[j].k}, {kind: 'l'}, {kind: 's'}, {kind: 'g', key: ents[j].k}, {kind: 'g', key: ents[0].k}}
+		case 9, 10: // a Get / a Has of a present key, mostly the least recently used one; the probers change the cache:
+			// a Put of another key that has to evict (the key that is being read, when it is the eldest), a Remove
+			// of it, Clear, a Put that replaces it - then readers
+			fill()
+			j := 0
+			if r.intn(3) == 0 {
+				j = r.intn(len(ents))
+			}
+			opA = input{kind: 'g', key: ents[j].k}
+			if kind == 10 {
+				opA.kind = 'h'
+			}
+			stopAt = ents[j]
+			probes = []input{{kind: 'p', key: newKey, val: val(1)}, {kind: 'r', key: ents[j].k}, {kind: 'c'}, {kind: 'p', key: ents[j].k, val: val(1)},
+				{kind: 'g', key: ents[j].k}, {kind: 'h', key: ents[j].k}, {kind: 'l'}, {kind: 's'}, {kind: 'g', key: newKey}, {kind: 'g', key: ents[len(ents)-1].k}}
 		default: // 4: Remove
 			fill()
 			j := r.intn(len(ents))
@@ -1073,6 +1144,42 @@ func executeStaged(c config) (hist []rec, global []kv, reasons, detail []string)
 		g := &gate{kind: 'c', val: stopAt.v, inside: make(chan struct{})}
 		if r.intn(2) == 0 {
 			g.kind = 's'
+		}
+		if c.store == 1 && (kind >= 9 || r.intn(2) == 0) {
+			// a gate inside a method of the harness's Store instead: at the start or at the end of one of the Store
+			// calls that A's call makes (or, for a Get, would make if it looked the key up with Check first)
+			type at struct {
+				kind      byte
+				key, skip int
+			}
+			nth := 0 // stopAt is the nth entry to be evicted (the driver's entries leave in the order they were put)
+			for i, e := range ents {
+				if e == stopAt {
+					nth = i
+				}
+			}
+			var cands []at
+			k := opA.key
+			switch opA.kind {
+			case 'g':
+				cands = []at{{'k', k, 0}, {'K', k, 0}, {'a', k, 0}, {'A', k, 0}}
+			case 'h':
+				cands = []at{{'k', k, 0}, {'K', k, 0}}
+			case 'r':
+				cands = []at{{'k', k, 0}, {'K', k, 0}, {'m', k, 0}, {'M', k, 0}}
+			case 'c':
+				cands = []at{{'e', 0, nth}, {'E', stopAt.k, 0}}
+			case 'p':
+				cands = []at{{'k', k, 0}, {'K', k, 0}, {'t', k, 0}, {'T', k, 0}}
+				if stopAt.k == k {
+					cands = append(cands, at{'m', k, 0}, at{'M', k, 0}) // replaces
+				} else {
+					cands = append(cands, at{'e', 0, nth}, at{'E', stopAt.k, 0}, at{'E', stopAt.k, 0})
+				}
+			}
+			x := cands[r.intn(len(cands))]
+			g.kind, g.val = x.kind, x.key
+			g.skip.Store(int32(x.skip))
 		}
 		np := c.g - 1
 		if np < 1 {
@@ -1086,6 +1193,9 @@ func executeStaged(c config) (hist []rec, global []kv, reasons, detail []string)
 			at := r.intn(len(probes))
 			if kind == 1 {
 				at, n = 0, len(probes)
+			}
+			if kind >= 9 && i == 0 {
+				at, n = r.intn(4), 1+r.intn(2) // the first prober starts with one of the writers
 			}
 			for k := 0; k < n && at+k < len(probes); k++ {
 				in := probes[at+k]
@@ -1125,6 +1235,14 @@ func executeStaged(c config) (hist []rec, global []kv, reasons, detail []string)
 		w.gate.Store(nil)
 		for _, rs := range recs {
 			hist = append(hist, rs...)
+		}
+		// small caches: a drain after the act (Puts of fresh keys, each as big as an entry), whose victims show the
+		// recency order the act has left behind - a use recorded late, or not at all, changes who goes first.
+		// (Decided by a generator of its own: the acts of a configuration are what they were before round 5.)
+		if r2 := newRng(c.seed*17000023 + uint64(c.run)*49979687 + uint64(act)*7 + 3); c.limit < 8 && (kind >= 9 || r2.intn(2) == 0) {
+			for d := 0; d < int(c.limit); d++ {
+				drv(input{kind: 'p', key: c.keys + 1 + d, val: val(1)})
+			}
 		}
 	}
 	hist, reasons = w.quiesce(hist)
@@ -1424,6 +1542,22 @@ func executeHandoff(c config) (hist []rec, global []kv, reasons, detail []string
 			}
 			probes = []input{{kind: 'p', key: newKey, val: val(1)}, {kind: 'r', key: newKey}, {kind: 'g', key: ents[j].k}, {kind: 'l'}, {kind: 's'}}
 		}
+		// round 5: every fourth act or so, A is a Get (sometimes a Has) of the LEAST recently used key and the first
+		// prober in the queue is a writer that takes that very entry away - a Put of another key that needs its room,
+		// a Remove, a replacing Put, Clear.  If the Get lets go of the mutex anywhere between looking the key up and
+		// recording the use, the writer runs there.  (Drawn from a generator of its own, after the act above has been
+		// drawn: the other acts of a configuration are what they were.)
+		r2 := newRng(c.seed*19000013 + uint64(c.run)*67867967 + uint64(act)*11 + 5)
+		special := r2.intn(4) == 0
+		if special {
+			e := ents[0]
+			opA = input{kind: 'g', key: e.k}
+			if r2.intn(5) == 0 {
+				opA.kind = 'h'
+			}
+			probes = []input{{kind: 'p', key: newKey, val: val(1)}, {kind: 'r', key: e.k}, {kind: 'p', key: e.k, val: val(1)}, {kind: 'c'},
+				{kind: 'g', key: ents[m-1].k}, {kind: 'p', key: newKey, val: val(1)}, {kind: 'l'}, {kind: 's'}, {kind: 'g', key: e.k}}
+		}
 		np := c.g - 1
 		if np < 1 {
 			np = 1
@@ -1455,6 +1589,9 @@ func executeHandoff(c config) (hist []rec, global []kv, reasons, detail []string
 			h.probers = append(h.probers, &prober{})
 			n := 1 + r.intn(3)
 			at := r.intn(len(probes))
+			if special && i == 0 {
+				at = r2.intn(3)
+			}
 			for k := 0; k < n && at+k < len(probes); k++ {
 				in := probes[at+k]
 				if in.kind == 'p' {
@@ -1553,10 +1690,28 @@ func execute(c config) ([]rec, []kv, []string, []string) {
 
 // ---- the sequential reference (state = the entries, least recently used first; a state is never
 // changed in place: porcupine keeps the states it has seen)
+//
+// Which entry a Put evicts.  The reference is the LRU cache: the victims of a Put are the least recently
+// used entries, in that order.  The only licence is known finding F2 (heapq's pop never sifts up, so after
+// a removal in the middle of its heap lruStore can evict an entry that is not the eldest), and it is given
+// exactly as far as theorem C08_lru_settled_partial leaves room for it: the history so far must no longer
+// be *settled* (CacheSpec.settled, evaluated on the reference's own state) - some call found its key
+// present while more than 5 entries were present and the last call that changed the cache was a successful
+// Remove.  Until then, and always when the cache runs on the harness's listStore (config.store = 1: no
+// heap, F2 does not apply), a victim that is not the least recently used entry is rejected.  (Before round
+// 5 every present entry was accepted as a victim, on every history: a Get that reports a hit on the very
+// entry an overlapping Put evicts was "explained" as Get first, then the Put evicting the entry that had
+// just been used.)
 
 type ent = kv
 
-var nonLRU int64 // a victim that was not the least recently used entry was seen (known finding F2)
+type mstate struct {
+	es    []ent
+	top   bool // CacheSpec.settles: the last call that changed the cache was not a successful Remove
+	loose bool // the history is no longer settled: F2 may show
+}
+
+var nonLRU int64 // a victim that was not the least recently used entry was accepted (known finding F2)
 
 func model(c config) porcupine.Model {
 	find := func(es []ent, k int) int {
@@ -1579,10 +1734,18 @@ func model(c config) porcupine.Model {
 		out = append(out, es[:i]...)
 		return append(out, es[i+1:]...)
 	}
+	// hit: the call finds its key present (CacheSpec.hits)
+	hit := func(ms mstate) mstate {
+		if !ms.top && len(ms.es) > 5 {
+			ms.loose = true
+		}
+		return ms
+	}
 	return porcupine.Model{
-		Init: func() interface{} { return []ent(nil) },
+		Init: func() interface{} { return mstate{top: true} },
 		Step: func(st, inp, outp interface{}) (bool, interface{}) {
-			es := st.([]ent)
+			ms := st.(mstate)
+			es := ms.es
 			in := inp.(input)
 			out := outp.(output)
 			switch in.kind {
@@ -1600,11 +1763,12 @@ func model(c config) porcupine.Model {
 					if len(ev) == 0 || ev[0] != es[i] {
 						return false, st
 					}
+					ms = hit(ms)
 					ev = ev[1:]
 					es = append(es[:i], es[i+1:]...)
 				}
 				t := total(es)
-				// the victims: mostly a prefix of the recency list (then one pass), anywhere otherwise (F2)
+				// the victims: a prefix of the recency list (one pass); anywhere else only under F2's licence
 				n := 0
 				for n < len(ev) && n < len(es) && es[n] == ev[n] {
 					if t+vs <= c.limit {
@@ -1614,6 +1778,9 @@ func model(c config) porcupine.Model {
 					n++
 				}
 				es = es[n:]
+				if n < len(ev) && (c.store != 0 || !ms.loose) {
+					return false, st // not the least recently used entry
+				}
 				for _, victim := range ev[n:] {
 					if t+vs <= c.limit {
 						return false, st
@@ -1631,7 +1798,7 @@ func model(c config) porcupine.Model {
 				if t+vs > c.limit {
 					return false, st
 				}
-				return true, append(es, ent{in.key, in.val})
+				return true, mstate{append(es, ent{in.key, in.val}), true, ms.loose}
 			case 'g':
 				i := find(es, in.key)
 				if i < 0 {
@@ -1640,11 +1807,12 @@ func model(c config) porcupine.Model {
 				if !out.ok || out.val != es[i].v || len(out.ev) != 0 {
 					return false, st
 				}
+				ms = hit(ms)
 				if i == len(es)-1 {
-					return true, st
+					return true, mstate{es, true, ms.loose}
 				}
 				e := es[i]
-				return true, append(without(es, i), e)
+				return true, mstate{append(without(es, i), e), true, ms.loose}
 			case 'h':
 				return out.ok == (find(es, in.key) >= 0) && len(out.ev) == 0, st
 			case 'r':
@@ -1655,7 +1823,8 @@ func model(c config) porcupine.Model {
 				if !out.ok || len(out.ev) != 1 || out.ev[0] != es[i] {
 					return false, st
 				}
-				return true, without(es, i)
+				ms = hit(ms)
+				return true, mstate{without(es, i), false, ms.loose}
 			case 'l':
 				return out.n == int64(len(es)) && len(out.ev) == 0, st
 			case 's':
@@ -1677,17 +1846,17 @@ func model(c config) porcupine.Model {
 						return false, st
 					}
 				}
-				return true, []ent(nil)
+				return true, mstate{nil, true, ms.loose}
 			}
 			return false, st
 		},
 		Equal: func(a, b interface{}) bool {
-			x, y := a.([]ent), b.([]ent)
-			if len(x) != len(y) {
+			x, y := a.(mstate), b.(mstate)
+			if len(x.es) != len(y.es) || x.top != y.top || x.loose != y.loose {
 				return false
 			}
-			for i := range x {
-				if x[i] != y[i] {
+			for i := range x.es {
+				if x.es[i] != y.es[i] {
 					return false
 				}
 			}
@@ -1966,8 +2135,46 @@ func selftest() bool {
 		op(0, input{kind: 'g', key: 0}, output{ok: true, val: 10}, 5, 8),
 		op(1, input{kind: 'g', key: 0}, output{ok: true, val: 20}, 6, 7), // another key's value
 	}
+	// a Get that hits on the least recently used of two entries, overlapping the Put of a third key that needs
+	// room (limit 2).  Get first: the other entry goes.  Put first: the Get misses.  A hit AND the eviction of
+	// that very entry has no explanation (the entry would have been the most recently used one).
+	getPut := func(getHit bool, victim kv) []porcupine.Operation {
+		g := output{}
+		if getHit {
+			g = output{ok: true, val: 10}
+		}
+		return []porcupine.Operation{
+			op(2, input{kind: 'p', key: 0, val: 10}, output{ok: true}, 1, 2),
+			op(2, input{kind: 'p', key: 1, val: 20}, output{ok: true}, 3, 4),
+			op(0, input{kind: 'g', key: 0}, g, 5, 8),
+			op(1, input{kind: 'p', key: 2, val: 30}, output{ok: true, ev: []kv{victim}}, 6, 7),
+		}
+	}
+	// the licence of known finding F2: seven entries, a Remove, then a Get that hits (the history is no longer
+	// settled), then a Put whose victim is not the least recently used entry - accepted for cache.LRU() only,
+	// and only with that Get
+	f2 := func(withGet bool) []porcupine.Operation {
+		var h []porcupine.Operation
+		t := int64(0)
+		add := func(in input, out output) { h = append(h, op(0, in, out, t+1, t+2)); t += 2 }
+		for k := 0; k < 7; k++ {
+			add(input{kind: 'p', key: k, val: 10 + k}, output{ok: true})
+		}
+		add(input{kind: 'r', key: 3}, output{ok: true, ev: []kv{{3, 13}}})
+		if withGet {
+			add(input{kind: 'g', key: 4}, output{ok: true, val: 14})
+		}
+		add(input{kind: 'p', key: 7, val: 17}, output{ok: true})
+		add(input{kind: 'p', key: 8, val: 18}, output{ok: true, ev: []kv{{1, 11}}})
+		return h
+	}
+	m7 := model(config{limit: 7, keys: 9})
+	m7own := model(config{limit: 7, keys: 9, store: 1})
 	ok := porcupine.CheckOperations(m, h1) && !porcupine.CheckOperations(m, h2) && !porcupine.CheckOperations(m, h3) && porcupine.CheckOperations(m, h4) &&
-		!porcupine.CheckOperations(m, h5) && porcupine.CheckOperations(m, h6) && !porcupine.CheckOperations(m, h7)
+		!porcupine.CheckOperations(m, h5) && porcupine.CheckOperations(m, h6) && !porcupine.CheckOperations(m, h7) &&
+		!porcupine.CheckOperations(m, getPut(true, kv{0, 10})) && porcupine.CheckOperations(m, getPut(true, kv{1, 20})) &&
+		porcupine.CheckOperations(m, getPut(false, kv{0, 10})) && !porcupine.CheckOperations(m, getPut(false, kv{1, 20})) &&
+		porcupine.CheckOperations(m7, f2(true)) && !porcupine.CheckOperations(m7, f2(false)) && !porcupine.CheckOperations(m7own, f2(true))
 	// the direct checks: a second report of a departed entry, a negative Len
 	hist := []rec{
 		{g: 0, in: input{kind: 'p', key: 0, val: 10}, out: output{ok: true}, call: 1, ret: 2},
@@ -2003,6 +2210,7 @@ func main() {
 	emitN := flag.Int("emitn", 100, "number of linearizations to emit")
 	emitEvery := flag.Int("emitevery", 7, "sample every n-th history")
 	maxN := flag.Int("maxn", 300, "entries at most in the big caches of modes 3 and 4")
+	storeFlag := flag.Int("store", -1, "0 cache.LRU(), 1 the harness's listStore through Config.WithStore (gates inside Check/Access/Store/Remove/Evict), -1 both (drawn per history)")
 	st := flag.Bool("selftest", false, "check the checker")
 	flag.Parse()
 	if *st {
@@ -2029,7 +2237,20 @@ func main() {
 		fixed = &c
 	}
 	r := newRng(*seed*31 + uint64(*mode))
+	var nextLRU func(i int) config
+	// which Store the cache of history i runs on is drawn from a generator of its own, so that the other
+	// fields of configuration i are what they were before there was a choice (corpus.cfg names such runs)
 	next := func(i int) config {
+		c := nextLRU(i)
+		if fixed == nil {
+			c.store = *storeFlag
+			if c.store < 0 {
+				c.store = newRng(*seed*1000033 + uint64(*mode)*8191 + uint64(i)*131 + 5).intn(2)
+			}
+		}
+		return c
+	}
+	nextLRU = func(i int) config {
 		if fixed != nil {
 			return *fixed
 		}
@@ -2136,7 +2357,7 @@ func main() {
 	}
 	go watchdog()
 	t0 := time.Now()
-	done, fails, totalOps, overlaps, nonlin, inconcl, emitted := 0, 0, 0, 0, 0, 0, 0
+	done, fails, totalOps, overlaps, nonlin, inconcl, emitted, ownStore := 0, 0, 0, 0, 0, 0, 0, 0
 	failed := map[string]bool{}
 	for i := 0; i < *runs; i++ {
 		if i >= *minRuns && *budget > 0 && time.Since(t0).Seconds() > *budget {
@@ -2149,6 +2370,9 @@ func main() {
 		}
 		hist, global, reasons, detail := execute(c)
 		done++
+		if c.store != 0 {
+			ownStore++
+		}
 		totalOps += len(hist)
 		more, ov, inc := check(c, hist, global, 5*time.Second)
 		reasons = dedup(append(reasons, more...))
@@ -2183,9 +2407,10 @@ func main() {
 			dump(hist)
 		}
 	}
-	fmt.Printf("STATS mode=%d runs=%d ops=%d fails=%d nonlinearizable=%d inconclusive=%d nonLRUVictims=%d overlaps=%d procs=%d wall=%.1f contended=%s gates=%d probesInside=%d gaveUp=%d handoffActs=%d handoffArmed=%d\n",
+	fmt.Printf("STATS mode=%d runs=%d ops=%d fails=%d nonlinearizable=%d inconclusive=%d nonLRUVictims=%d overlaps=%d procs=%d wall=%.1f contended=%s gates=%d probesInside=%d gaveUp=%d handoffActs=%d handoffArmed=%d ownStoreRuns=%d storeGates=%d\n",
 		modeOf(fixed, *mode), done, totalOps, fails, nonlin, inconcl, atomic.LoadInt64(&nonLRU), overlaps, runtime.GOMAXPROCS(0), time.Since(t0).Seconds(), tagString(),
-		atomic.LoadInt64(&gateFired), atomic.LoadInt64(&gateProbesInside), atomic.LoadInt64(&gateGaveUp), atomic.LoadInt64(&handActs), atomic.LoadInt64(&handArmed))
+		atomic.LoadInt64(&gateFired), atomic.LoadInt64(&gateProbesInside), atomic.LoadInt64(&gateGaveUp), atomic.LoadInt64(&handActs), atomic.LoadInt64(&handArmed),
+		ownStore, atomic.LoadInt64(&storeGateFired))
 	if fails > 0 {
 		os.Exit(1)
 	}
